@@ -93,6 +93,39 @@ func verifyFunction(P *Program, CS *Contracts, fn *ssa.Function, con *Contract) 
 	return c, nil
 }
 
+// verifyLemma discharges a stand-alone statement (no code): used for composition lemmas over contracts.
+func verifyLemma(P *Program, CS *Contracts, con *Contract) (c *Ctx, err error) {
+	c = newCtx(P, CS, nil, con)
+	defer func() {
+		if r := recover(); r != nil {
+			if u, ok := r.(unsupportedErr); ok {
+				err = fmt.Errorf("unsupported: %s", string(u))
+				return
+			}
+			panic(r)
+		}
+	}()
+	c.compSort["$alloc"] = "(Array Ref Bool)"
+	c.compSort["$clk"] = c.intS()
+	h := c.newBase()
+	c.entry = h
+	e := &Exec{c: c, con: con, env: map[ssa.Value]Val{}, params: map[string]Val{}, names: map[string]Val{}}
+	var pkg *types.Package
+	for _, p := range P.Prog.AllPackages() {
+		if p.Pkg.Path() == zapMod+"/zapcore" {
+			pkg = p.Pkg
+		}
+	}
+	sc := &Scope{e: e, c: c, cur: h, old: h, params: map[string]Val{}, names: map[string]Val{}, pkg: pkg, tracks: map[string]*trackInfo{}}
+	for _, r := range con.Requires {
+		c.fact(e.evalBool(sc, r))
+	}
+	for i, s := range con.Ensures {
+		c.oblige("lemma", fmt.Sprintf("statement[%d]", i+1), "true", e.evalBool(sc, s), "lemma: "+s.Src, fmt.Sprintf("%s:%d", strings.TrimPrefix(con.File, "/repo/"), con.Line))
+	}
+	return c, nil
+}
+
 func (e *Exec) run() {
 	c := e.c
 	fn := e.fn
@@ -175,6 +208,10 @@ func (e *Exec) run() {
 		o := c.oblige("vacuity", "return.reachable", "true", "false", "some return is reachable (expect sat)", e.pos(fn.Pos()))
 		o.Expect = "sat"
 		o.Goal = not(or(e.retPCs...))
+		// consistency of everything assumed along the way (contracts of callees, axioms),
+		// with the quantified facts included: "false" must not be derivable at a return
+		o2 := c.oblige("vacuity", "assumptions.consistent", or(e.retPCs...), "false", "the facts assumed on the way to a return (callee contracts, axioms) are not contradictory (unsat = vacuous proof)", e.pos(fn.Pos()))
+		o2.Expect = "consistent"
 	}
 }
 
@@ -1088,6 +1125,12 @@ func (e *Exec) execUnOp(x *ssa.UnOp, st *State) {
 	v := e.val(x.X)
 	switch x.Op {
 	case token.MUL:
+		if g, ok := x.X.(*ssa.Global); ok {
+			if cv, ok := e.immutableGlobal(g); ok {
+				e.env[x] = cv
+				return
+			}
+		}
 		if v.Loc == nil {
 			e.safety("nil", st, not(fmt.Sprintf("(= %s nil)", v.T)), "nil dereference in load", x.Pos())
 		}
@@ -1368,4 +1411,98 @@ func (e *Exec) execPanic(x *ssa.Panic, st *State) {
 	if e.nopanic {
 		c.oblige("safety.panic", fmt.Sprintf("panic-unreachable@b%d", e.curBlock.Index), st.pc, "false", "explicit panic is unreachable", e.pos(x.Pos()))
 	}
+}
+
+// immutableGlobal: a package-level variable that is assigned only in the package initialiser
+// is a constant for every other function. For error-typed variables initialised by
+// errors.New / fmt.Errorf the constant is known to be non-nil.
+func (e *Exec) immutableGlobal(g *ssa.Global) (Val, bool) {
+	c := e.c
+	if c.immGlobals == nil {
+		c.immGlobals = map[*ssa.Global]*Val{}
+	}
+	if v, ok := c.immGlobals[g]; ok {
+		if v == nil {
+			return Val{}, false
+		}
+		return *v, true
+	}
+	t := deref(g.Type())
+	if isStruct(t) || isArray(t) {
+		c.immGlobals[g] = nil
+		return Val{}, false
+	}
+	nonNil := false
+	for _, mem := range g.Pkg.Members {
+		fn, ok := mem.(*ssa.Function)
+		if !ok {
+			continue
+		}
+		fns := append([]*ssa.Function{fn}, fn.AnonFuncs...)
+		for _, f := range fns {
+			for _, b := range f.Blocks {
+				for _, ins := range b.Instrs {
+					// any use of the global other than a load makes it mutable (store, address taken)
+					for _, op := range ins.Operands(nil) {
+						if *op != ssa.Value(g) {
+							continue
+						}
+						if u, ok := ins.(*ssa.UnOp); ok && u.Op == token.MUL {
+							continue
+						}
+						st, isStore := ins.(*ssa.Store)
+						if isStore && st.Addr == ssa.Value(g) && f.Name() == "init" && f.Parent() == nil {
+							if call, ok := st.Val.(*ssa.Call); ok {
+								if sc := call.Common().StaticCallee(); sc != nil && (sc.String() == "errors.New" || sc.String() == "fmt.Errorf") {
+									nonNil = true
+								}
+							}
+							continue
+						}
+						c.immGlobals[g] = nil
+						return Val{}, false
+					}
+				}
+			}
+		}
+	}
+	// methods of named types in the package
+	for _, mem := range g.Pkg.Members {
+		if tn, ok := mem.(*ssa.Type); ok {
+			for _, recv := range []types.Type{tn.Type(), types.NewPointer(tn.Type())} {
+				ms := g.Pkg.Prog.MethodSets.MethodSet(recv)
+				for i := 0; i < ms.Len(); i++ {
+					f := g.Pkg.Prog.MethodValue(ms.At(i))
+					if f == nil || f.Pkg != g.Pkg {
+						continue
+					}
+					for _, ff := range append([]*ssa.Function{f}, f.AnonFuncs...) {
+						for _, b := range ff.Blocks {
+							for _, ins := range b.Instrs {
+								for _, op := range ins.Operands(nil) {
+									if *op == ssa.Value(g) {
+										if u, ok := ins.(*ssa.UnOp); ok && u.Op == token.MUL {
+											continue
+										}
+										c.immGlobals[g] = nil
+										return Val{}, false
+									}
+								}
+							}
+						}
+					}
+				}
+			}
+		}
+	}
+	n := q("gconst:" + shortPath(g.Pkg.Pkg.Path()) + "." + g.Name())
+	s := c.sortOf(t)
+	c.decl("gconst:"+n, fmt.Sprintf("(declare-const %s %s)", n, s))
+	v := Val{T: n, S: s, GT: t}
+	c.decl("gconst-range:"+n, fmt.Sprintf("(assert %s)", c.rangeFact(n, t, 0)))
+	if nonNil && s == SIface {
+		c.decl("gconst-nonnil:"+n, fmt.Sprintf("(assert (not (= (if_tag %s) 0)))", n))
+	}
+	c.immGlobals[g] = &v
+	return v, true
 }
